@@ -263,10 +263,18 @@ def model_text(model, st=None, extra_sections=None):
     secs.append("\n".join(s))
   if model.get("species"):
     s = ["[Species]"]
+    lines = []
     for sp_, props in model["species"].items():
       for pk, pv in props.items():
-        s.append(entry("%s.%s" % (sp_, pk), fnum(pv) if not isinstance(pv, str) else pv, st))
-    secs.append("\n".join(s))
+        lines.append(entry("%s.%s" % (sp_, pk), fnum(pv) if not isinstance(pv, str) else pv, st))
+    if not st.plain:
+      # the order of [Species] entries means nothing: property by property, species by species, or anyhow
+      c_ = st.rng.random()
+      if c_ < 0.35:
+        st.rng.shuffle(lines)
+      elif c_ < 0.6:
+        lines.sort(key=lambda l: l.split(".", 1)[1].split()[0] if "." in l else l)
+    secs.append("\n".join(s + lines))
   for es in extra_sections or []:
     secs.append(es)
   if not st.plain:
